@@ -1,27 +1,41 @@
 ----------------------------- MODULE Trace_Hist -----------------------------
 (* code -> spec: validates data points collected from the real SDK against     *)
-(* the contracts of ExpoModel / HistModel.  Lines:                              *)
-(*   New{sc,cfg}   fresh MeterProvider; cfg = [kind "expo"|"expl", maxsize,      *)
-(*                 maxscale, cum, quant, bounds (ranks)]                         *)
+(* the contracts of ExpoModel / HistModel.  One scenario = the history of ONE   *)
+(* stream as seen by ONE reader (one attribute set); the harness de-interleaves *)
+(* richer executions (several readers, instruments, meters, attribute sets,     *)
+(* shared and re-used destinations) into such scenarios.  Lines:                *)
+(*   New{sc,cfg}   new scenario; cfg = [kind "expo"|"expl", maxsize, maxscale,   *)
+(*                 cum, quant, bounds (ranks), nosum, nominmax]                  *)
 (*   Rec{sc,vals}  abstract values of the measurements recorded since the last   *)
 (*                 line                                                          *)
-(*   Col{sc,obs}   projection of the data point returned by reader.Collect       *)
+(*   Col{sc,obs,dest,fp}  projection of the data point a collection reported;    *)
+(*                 dest = what the destination memory held before (information   *)
+(*                 only: the contract must hold WHATEVER it held -- HistOutput's *)
+(*                 ReportIndep on the real code); fp = fingerprint of the        *)
+(*                 concrete point as reported                                    *)
+(*   Chk{sc,k,fp}  fingerprint of the still live point object the k-th Col of the  *)
+(*                 scenario reported, taken later (after further measurements    *)
+(*                 and collections into OTHER destinations): a reported point    *)
+(*                 never changes unless its own destination is handed to a       *)
+(*                 collection again                                              *)
 EXTENDS ExpoModel, HistModel, TraceKit
 
-VARIABLES l, cfg, H, prev
-vars == <<l, cfg, H, prev>>
+VARIABLES l, cfg, H, prev, fps
+vars == <<l, cfg, H, prev, fps>>
 
 Init == /\ l = 1
-        /\ cfg = [kind |-> "none", maxsize |-> 1, maxscale |-> 20, cum |-> TRUE, quant |-> FALSE, bounds |-> <<>>]
-        /\ H = <<>> /\ prev = 20
+        /\ cfg = [kind |-> "none", maxsize |-> 1, maxscale |-> 20, cum |-> TRUE, quant |-> FALSE, bounds |-> <<>>,
+                  nosum |-> FALSE, nominmax |-> FALSE]
+        /\ H = <<>> /\ prev = 20 /\ fps = <<>>
 
 TNew == /\ l <= Len(Trace) /\ Trace[l].ev = "New"
         /\ cfg' = Trace[l].cfg /\ H' = <<>> /\ prev' = EffMax(Trace[l].cfg.maxscale)
+        /\ fps' = <<>>
         /\ l' = l + 1
 
 TRec == /\ l <= Len(Trace) /\ Trace[l].ev = "Rec"
         /\ H' = H \o Trace[l].vals
-        /\ l' = l + 1 /\ UNCHANGED <<cfg, prev>>
+        /\ l' = l + 1 /\ UNCHANGED <<cfg, prev, fps>>
 
 TCol == /\ l <= Len(Trace) /\ Trace[l].ev = "Col"
         /\ LET o == Trace[l].obs
@@ -30,21 +44,29 @@ TCol == /\ l <= Len(Trace) /\ Trace[l].ev = "Col"
                refused == cfg.kind = "expo" /\ cfg.maxscale < MinScale /\ o.shape = "rejected"
                bad == IF refused THEN {}
                       ELSE IF cfg.kind = "expo"
-                      THEN ExpoClauses(o, H, cfg.maxscale, cfg.maxsize, prev, cfg.quant)
-                      ELSE HistClauses(o, H, cfg.bounds, cfg.quant)
+                      THEN ExpoClauses(o, H, cfg.maxscale, cfg.maxsize, prev, cfg.quant, cfg.nosum, cfg.nominmax)
+                      ELSE HistClauses(o, H, cfg.bounds, cfg.quant, cfg.nosum, cfg.nominmax)
                shape == IF o.shape # "ok" /\ ~refused THEN {"shape"} ELSE {}
            IN /\ (bad \cup shape # {}) =>
                     Viol([line |-> l, sc |-> Trace[l].sc, kind |-> cfg.kind, why |-> bad \cup shape,
+                          dest |-> Trace[l].dest,
                           dropped |-> IF cfg.kind = "expo" THEN Len(H) - Len(Keep(H, cfg.maxsize)) ELSE 0,
                           excess |-> IF cfg.kind = "expo" /\ o.present
                                      THEN o.count - (o.zero + SumSeq(o.pos) + SumSeq(o.neg)) ELSE 0,
                           nvals |-> Len(H)])
               /\ prev' = IF cfg.kind = "expo" /\ cfg.cum /\ o.present THEN o.scale ELSE EffMax(cfg.maxscale)
+        /\ fps' = Append(fps, Trace[l].fp)
         /\ H' = IF cfg.cum THEN H ELSE <<>>
         /\ l' = l + 1 /\ UNCHANGED cfg
 
+TChk == /\ l <= Len(Trace) /\ Trace[l].ev = "Chk"
+        /\ (Trace[l].k \notin 1..Len(fps) \/ Trace[l].fp # fps[Trace[l].k]) =>
+              Viol([line |-> l, sc |-> Trace[l].sc, kind |-> cfg.kind, why |-> {"changed-after-report"},
+                    dest |-> Trace[l].dest, dropped |-> 0, excess |-> 0, nvals |-> Len(H)])
+        /\ l' = l + 1 /\ UNCHANGED <<cfg, H, prev, fps>>
+
 TDone == l = Len(Trace) + 1 /\ Accepted(l) /\ UNCHANGED vars
 
-Next == TNew \/ TRec \/ TCol \/ TDone
+Next == TNew \/ TRec \/ TCol \/ TChk \/ TDone
 Spec == Init /\ [][Next]_vars
 =============================================================================
